@@ -9,7 +9,7 @@ Import ListNotations.
     workspace file is analysed with its latest editor text and every closed one holds its disk content or
     is absent when it is not on disk. *)
 Theorem reload_converges : forall (disk : uri -> option text) (s0 s : st),
-  start disk s0 -> reach disk s0 s -> quiescent s ->
+  start disk s0 -> reach disk true s0 s -> quiescent s ->
   forall u,
     wopen s u = editor (wopen s0) (queue s0) u /\
     an s u = match wopen s u with Some t => Some t | None => disk u end.
@@ -17,27 +17,35 @@ Proof. exact Proofs.reload_converges. Qed.
 
 (** The invariant behind it: a stale uri is always covered by the running handler or by a reload stage. *)
 Theorem stale_is_covered : forall (disk : uri -> option text) (s0 s : st),
-  start disk s0 -> reach disk s0 s ->
+  start disk s0 -> reach disk true s0 s ->
   forall u, an s u = target disk s u \/ midu s u \/ covered s u.
 Proof. intros disk s0 s H0 Hr. exact (proj2 (proj2 (Proofs.inv_reach disk s0 s H0 Hr))). Qed.
 
 (** Before quiescence the system can always move ... *)
 Theorem reload_progress : forall (disk : uri -> option text) (s : st), ~ quiescent s ->
-  exists s', step disk s s' /\ (mid s' <> mid s \/ rs s' <> rs s).
+  exists s', step disk true s s' /\ (mid s' <> mid s \/ rs s' <> rs s).
 Proof. exact Proofs.progress. Qed.
 
 (** ... and every step other than a new reload request consumes a natural-number measure: with finitely
     many reload requests every execution reaches quiescence. *)
 Theorem reload_terminates : forall (disk : uri -> option text) (s0 s s' : st),
-  start disk s0 -> reach disk s0 s -> step disk s s' ->
+  start disk s0 -> reach disk true s0 s -> step disk true s s' ->
   mu s' < mu s \/ (pend s' = true /\ queue s' = queue s /\ mid s' = mid s /\ rs s' = rs s).
 Proof.
   intros disk s0 s s' H0 Hr Hst. apply (Proofs.step_decreases disk); [|assumption].
   exact (proj1 (proj2 (Proofs.inv_reach disk s0 s H0 Hr))).
 Qed.
 
+(** The theorems above are about [always = true]: [sync_open_file] bumps the version on every call.  If it
+    bumped it only for uris that were not open before, an edit of an already open file that lands between
+    the reload's snapshot and init_analysis is lost: quiescent, editor text 2, analysed text 1. *)
+Theorem bump_only_new_refuted :
+  start no_disk stale_start /\
+  exists s, reach no_disk false stale_start s /\ quiescent s /\ wopen s 0 = Some 2 /\ an s 0 = Some 1.
+Proof. exact Proofs.bump_only_new_refuted. Qed.
+
 (** non-vacuity: a reload interleaved with didOpen and didClose of an on-disk file *)
 Example reload_example :
   start ex_disk ex_start /\
-  exists s, reach ex_disk ex_start s /\ quiescent s /\ wopen s 0 = None /\ an s 0 = Some 7 /\ ver s = 2.
+  exists s, reach ex_disk true ex_start s /\ quiescent s /\ wopen s 0 = None /\ an s 0 = Some 7 /\ ver s = 2.
 Proof. exact Proofs.reload_example. Qed.
